@@ -42,7 +42,12 @@ RULE = ("random acyclic group DAGs: 1-5 groups on levels 1-4, a group references
         "through next() / get_next() / a for-loop left with break, then list(proxy); the concatenation is compared with the "
         "whole enumeration, then next() must raise StopIteration), 6% two proxies over the SAME ProxyGroup and core "
         "ProxyGraph objects driven alternately (both must yield the whole enumeration), 20% an explicit "
-        "Parser(use_multigraph=True|False, init_aam=True|False). "
+        "Parser(use_multigraph=True|False, init_aam=True|False); 20% of the remaining ones a RE-CONFIGURATION history: a proxy "
+        "over ProxyGroup objects G is enumerated, then one or two of the groups get `group.graphs = value` through the "
+        "documented setter (value = str | list[str] | ProxyGraph | list[ProxyGraph]: other patterns, anchors, number of "
+        "graphs) and a proxy over the SAME group objects is built again (same arguments / another core / through the "
+        "`proxy.groups` setter with a ProxyGroup | list | dict) and enumerated: this second enumeration is compared with "
+        "the model and the checkers for the NEW configuration. "
         "non-trivial = at least 2 results and a group referenced from a group; distinct = distinct configuration + history + parser")
 TRUSTED = ["the pattern parser (not part of this property): patterns reach the model as the MultiGraphs the real "
            "Parser(use_multigraph=True) returns at offset 0",
@@ -54,7 +59,9 @@ ASSUMPTIONS = ["parser.parse(pattern, idx_offset=m) is parser.parse(pattern) wit
                "numbering from the offset is proved for the parser model in C01)",
                "samplers: groups use the default GraphSampler(unique=False), the core group GraphSampler(unique=True) "
                "over pairwise distinct ProxyGraph OBJECTS (equal contents allowed and generated: each object counts); "
-               "custom samplers are outside the model (the translator and the harness fail closed on them)",
+               "custom samplers and ProxyGroup(..., unique=True) groups (restricting samplers) are outside the model and "
+               "are not generated, also not in the re-configuration histories (the translator and the harness fail closed "
+               "on them)",
                "explicit parsers: Parser(use_multigraph=True, init_aam=..) is covered by the model (the final aam overwrite "
                "makes parse-time map numbers irrelevant) except init_aam=True with enable_aam=False, where the parse-time "
                "numbers stay on the nodes: there, and for Parser(use_multigraph=False) (simple-graph path: no nx.Graph "
@@ -223,6 +230,61 @@ DRIVES = ["next", "get_next", "break"]
 PARSERS = [[True, False], [True, True], [False, False], [False, True]]
 
 
+VIAS = ["recreate", "recreate", "newcore", "setter_dict", "setter_list", "setter_single"]
+
+
+def _form_for(rng, graphs):
+    """a value form the documented `graphs` setter accepts for this list of [pattern, anchors]"""
+    forms = ["listpg"]
+    if all(a == [0] for _, a in graphs):
+        forms.append("liststr")
+        if len(graphs) == 1:
+            forms.append("str")
+    if len(graphs) == 1:
+        forms.append("pg")
+    return rng.choice(forms)
+
+
+def make_reconf(rng, c, limit):
+    """History: a proxy over group objects G is enumerated, then one or two of the ProxyGroup objects are re-configured
+    through the public `graphs` setter (and/or the proxy's `groups` setter is used), then a proxy over the SAME group
+    objects is enumerated: that second enumeration is what the case compares with the model, for the NEW configuration
+    (c["cfg"]); c["reconf"] records the old configuration and how the new one is installed."""
+    old = c["cfg"]
+    if not old["groups"]:
+        return c
+    keys = [k for k, _, _ in old["groups"]]
+    its = any("<" in p for p in pc.all_patterns(old))
+    new_groups = [[k, n, [[p, list(a)] for p, a in gl]] for k, n, gl in old["groups"]]
+    changed, forms = [], {}
+    for j in rng.sample(range(len(new_groups)), min(len(new_groups), rng.choice([1, 1, 2]))):
+        k, n, gl = new_groups[j]
+        refs = []
+        for p, _ in gl:
+            g = ok_pattern(p)
+            for _, d in (g.nodes(data=True) if g is not None else []):
+                refs += [l for l in d["labels"] if l in keys and l != k and l not in refs]
+        graphs = [rand_pgraph(rng, refs, its, nmax=4) for _ in range(rng.choice([1, 1, 2, 3]))]
+        new_groups[j] = [k, n, graphs]
+        changed.append(k)
+        forms[k] = _form_for(rng, graphs)
+    vias = [v for v in VIAS if (v != "setter_single" or len(keys) == 1)
+            and (v not in ("setter_list", "setter_single") or all(k == n for k, n, _ in new_groups))]
+    via = rng.choice(vias)
+    core = [[p, list(a)] for p, a in old["core"]]
+    if via == "newcore":
+        core = [rand_pgraph(rng, keys, its, nmax=5, nonempty=True) for _ in range(rng.choice([1, 2]))]
+    new = {"core": core, "groups": new_groups, "aam": old["aam"]}
+    cnt = pc.count_formula(new, limit=100 * limit)
+    if cnt is None or cnt > limit:
+        return c
+    c["reconf"] = {"old_core": old["core"], "old_groups": old["groups"], "changed": changed, "forms": forms, "via": via}
+    c["cfg"] = new
+    c["expected"] = cnt
+    c["how"] = "dict"
+    return c
+
+
 def decorate(rng, c, limit):
     """Independent of the configuration stream: duplicate core graphs (distinct ProxyGraph objects with equal
     pattern and anchor must count separately), iteration histories (k items through next()/get_next()/a broken
@@ -251,6 +313,8 @@ def decorate(rng, c, limit):
     r = rng.random()
     if r < 0.2:
         c["parser"] = rng.choice(PARSERS)
+    if not c.get("drive") and c.get("parser") is None and rng.random() < 0.2:
+        make_reconf(rng, c, limit)
     return c
 
 
@@ -365,6 +429,20 @@ def corpus():
         yield c
     c = _mk(["C{g}{h}"], [("g", ["C", "O"]), ("h", ["N", "{g}"])])
     c["drive"] = ["next", 2]
+    yield c
+    # re-configured groups: enumerate, assign group.graphs (every value form) / proxy.groups, enumerate again
+    for via, form, newg in (("recreate", "liststr", ["N", "S", "CC"]), ("recreate", "str", ["Cl"]),
+                            ("recreate", "pg", [["OC", [1]]]), ("newcore", "listpg", [["CO", [0, 1]], ["", [0]]]),
+                            ("setter_dict", "liststr", ["N"]), ("setter_list", "listpg", [["C=O", [0]], ["S", [0]]]),
+                            ("setter_single", "str", ["Br"])):
+        newg = [[g, [0]] if isinstance(g, str) else g for g in newg]
+        c = _mk(["C{g}N", "O{g}"] if via != "newcore" else ["{g}1CC1"], [("g", newg)], how="dict")
+        c["reconf"] = {"old_core": [["C{g}N", [0]], ["O{g}", [0]]], "old_groups": [["g", "g", [["C", [0]], ["O", [0]]]]],
+                       "changed": ["g"], "forms": {"g": form}, "via": via}
+        yield c
+    c = _mk(["C{a}{b}"], [("a", ["N{b}", "O"]), ("b", ["S", ["CC", [1]]])])
+    c["reconf"] = {"old_core": [["C{a}{b}", [0]]], "old_groups": [["a", "a", [["C{b}", [0]]]], ["b", "b", [["F", [0]], ["Cl", [0]], ["Br", [0]]]]],
+                   "changed": ["a", "b"], "forms": {"a": "liststr", "b": "listpg"}, "via": "recreate"}
     yield c
     # explicit parsers: init_aam / use_multigraph, with and without enable_aam
     for ps in PARSERS:
@@ -490,6 +568,54 @@ def _alternate(cfg, cls, parser):
     return ps[0], outs[0], status[0], _stays(ps[0]) and _stays(ps[1]), msgs
 
 
+def _graphs_value(form, graphs):
+    if form == "str":
+        return graphs[0][0]
+    if form == "liststr":
+        return [p for p, _ in graphs]
+    if form == "pg":
+        return ProxyGraph(graphs[0][0], anchor=list(graphs[0][1]))
+    return [ProxyGraph(p, anchor=list(a)) for p, a in graphs]
+
+
+def _reconfigured(c, cls):
+    """Enumerate a proxy over the OLD configuration, re-configure the same ProxyGroup objects through the public
+    setters, and return a fresh proxy over them (not yet iterated) for the NEW configuration."""
+    rc, cfg = c["reconf"], eff_cfg(c)
+    gobj = {key: ProxyGroup(name, [ProxyGraph(p, anchor=list(a)) for p, a in graphs]) for key, name, graphs in rc["old_groups"]}
+
+    def mk(core, groups):
+        cg = ProxyGroup("__core__", [ProxyGraph(p, anchor=list(a)) for p, a in core], unique=True)
+        if cls is MolProxy:
+            return cls(cg, groups)
+        return cls(cg, groups, enable_aam=cfg["aam"])
+
+    p1 = mk(rc["old_core"], gobj)
+    try:
+        _iterate(p1, Proxy.get_next)          # uses every reachable group at least once
+    except Exception:                          # noqa  (the old configuration may be one of the error configurations)
+        pass
+    for key, _, graphs in cfg["groups"]:
+        if key in rc["changed"]:
+            gobj[key].graphs = _graphs_value(rc["forms"][key], graphs)
+    via = rc["via"]
+    if via in ("recreate", "newcore"):
+        return mk(cfg["core"], gobj)
+    p2 = mk(cfg["core"], ProxyGroup("zz_unused_placeholder", "C"))
+    if via == "setter_single":
+        p2.groups = list(gobj.values())[0]
+    elif via == "setter_list":
+        p2.groups = list(gobj.values())
+    else:
+        p2.groups = gobj
+    return p2
+
+
+def repeat_ok(c):
+    # the Diels-Alder enumerations are cached across the slice cases (editing a result in place would edit the cache)
+    return c["kind"] != "da"
+
+
 def run_impl(c):
     if c["kind"] == "da":
         key = c["neg"]
@@ -506,6 +632,8 @@ def run_impl(c):
     msgs = []
     if drv and drv[0] == "alt":
         p, graphs, status, stays, msgs = _alternate(cfg, cls, c.get("parser"))
+    elif c.get("reconf"):
+        p = _reconfigured(c, cls)
     else:
         p = pc.build_proxy(cfg, cls=cls, how=c["how"], parser=c.get("parser"))
     try:
@@ -591,7 +719,7 @@ def coq_case(c, out):
 def describe(c):
     d = {"kind": c["kind"], "cfg": c["cfg"] if c["kind"] != "da" else "DielsAlderProxy(neg_sample=%s)" % c["neg"],
          "how": c["how"], "cls": c["cls"], "expected": c.get("expected"), "neg": c.get("neg"),
-         "drive": c.get("drive"), "parser": c.get("parser")}
+         "drive": c.get("drive"), "parser": c.get("parser"), "reconf": c.get("reconf")}
     if c["kind"] == "da":
         d["neg"] = c["neg"]
         d["slice"] = c["slice"]
@@ -607,7 +735,7 @@ def from_json(d):
     cfg = {"core": [[p, list(a)] for p, a in cfg["core"]],
            "groups": [[k, n, [[p, list(a)] for p, a in gl]] for k, n, gl in cfg["groups"]], "aam": cfg["aam"]}
     return {"kind": d["kind"], "cfg": cfg, "how": d["how"], "cls": d["cls"], "expected": d.get("expected"),
-            "neg": d.get("neg"), "drive": d.get("drive"), "parser": d.get("parser")}
+            "neg": d.get("neg"), "drive": d.get("drive"), "parser": d.get("parser"), "reconf": d.get("reconf")}
 
 
 def describe_out(out):
@@ -621,7 +749,8 @@ def key(c):
     cfg = eff_cfg(c)
     return (tuple((p, tuple(a)) for p, a in cfg["core"]),
             tuple((k, n, tuple((p, tuple(a)) for p, a in gl)) for k, n, gl in cfg["groups"]), cfg["aam"],
-            tuple(c.get("drive") or ()), tuple(c.get("parser") or ()))
+            tuple(c.get("drive") or ()), tuple(c.get("parser") or ()),
+            repr(c["reconf"]) if c.get("reconf") else None)
 
 
 def _nested(cfg):
@@ -667,6 +796,10 @@ def classes(c, out):
             yield "history_splits_enumeration=yes"
     if c.get("parser") is not None:
         yield "parser=use_multigraph:%s,init_aam:%s" % tuple(c["parser"])
+    if c.get("reconf"):
+        yield "reconfigured=%s" % c["reconf"]["via"]
+        for f in sorted(set(c["reconf"]["forms"].values())):
+            yield "graphs_setter_value=%s" % f
     if len(set((p, tuple(a)) for p, a in cfg["core"])) < len(cfg["core"]):
         yield "equal_core_graphs=yes"
     yield "aam=%s" % cfg["aam"]
